@@ -301,6 +301,70 @@ class SR:
         return False
 
 
+class SW(SR):
+    """integer-valued symbolic number held in a fixed-width numpy integer (np.array(..., dtype=np.int64) of symbolic counts): +, -, * with
+    integers stay in the type and record the obligation that the mathematical result fits (numpy scalars wrap silently otherwise); every
+    other operation promotes to a plain symbolic real (float semantics), as numpy does"""
+    __slots__ = ('bits',)
+
+    def __init__(self, e, bits=64):
+        self.e = e
+        self.bits = bits
+
+    def _fit(self, r, bits):
+        lim = 2 ** (bits - 1)
+        if not hasattr(ST.path, 'int_range'):
+            ST.path.int_range = []
+        ST.path.int_range.append(z3.And(r >= -lim, r <= lim - 1))
+        return SW(r, bits)
+
+    def _int_operand(self, o):
+        if isinstance(o, SW):
+            return o.e, max(self.bits, o.bits)
+        if isinstance(o, (bool, np.bool_)):
+            return z3.RealVal(int(o)), self.bits
+        if isinstance(o, (int, np.integer)):
+            return z3.RealVal(int(o)), self.bits
+        return None, None
+
+    def __add__(self, o):
+        t, b = self._int_operand(o)
+        return SR.__add__(self, o) if t is None else self._fit(self.e + t, b)
+
+    __radd__ = __add__
+
+    def __sub__(self, o):
+        t, b = self._int_operand(o)
+        return SR.__sub__(self, o) if t is None else self._fit(self.e - t, b)
+
+    def __rsub__(self, o):
+        t, b = self._int_operand(o)
+        return SR.__rsub__(self, o) if t is None else self._fit(t - self.e, b)
+
+    def __mul__(self, o):
+        t, b = self._int_operand(o)
+        return SR.__mul__(self, o) if t is None else self._fit(self.e * t, b)
+
+    __rmul__ = __mul__
+
+    def __neg__(self):
+        return self._fit(-self.e, self.bits)
+
+    def __pos__(self):
+        return self
+
+    def __abs__(self):
+        return self._fit(z3.If(self.e >= 0, self.e, -self.e), self.bits)
+
+    def __pow__(self, o):
+        if isinstance(o, (int, np.integer)) and not isinstance(o, (bool, np.bool_)) and 0 <= int(o) <= 4:
+            r = SW(z3.RealVal(1), self.bits)
+            for _ in range(int(o)):
+                r = r * self
+            return r
+        return SR.__pow__(SR(self.e), o)
+
+
 class SI:
     """symbolic (mathematical) integer"""
     __slots__ = ('e',)
@@ -930,8 +994,25 @@ class NPProxy(types.ModuleType):
     # array construction: keep symbolic content in SymArray
     def array(self, obj, *a, **k):
         if _has_sym(obj):
-            k.pop('dtype', None)
+            dt = k.pop('dtype', None)
             r = np.array(obj, dtype=object, **{kk: vv for kk, vv in k.items() if kk in ('copy', 'ndmin')})
+            try:
+                dt = np.dtype(dt) if dt is not None and not isinstance(dt, _F64) else None
+            except TypeError:
+                dt = None
+            if dt is not None and dt.kind in 'iu':
+                # fixed-width integers: the elements must be integer-valued and fit, later integer arithmetic must not wrap
+                bits = dt.itemsize * 8
+                for idx in np.ndindex(r.shape):
+                    v = r[idx]
+                    if isinstance(v, SR) and not isinstance(v, SW):
+                        if not hasattr(ST.path, 'int_range'):
+                            ST.path.int_range = []
+                        lim = 2 ** (bits - 1)
+                        ST.path.int_range.append(z3.And(z3.IsInt(v.e), v.e >= (-lim if dt.kind == 'i' else 0), v.e <= lim - 1))
+                        r[idx] = SW(v.e, bits)
+                    elif isinstance(v, SW):
+                        r[idx] = SW(v.e, bits)
             return _wrap(r)
         if 'dtype' in k and isinstance(k['dtype'], _F64):
             k['dtype'] = np.float64
@@ -1341,6 +1422,8 @@ def _sym_type(x):
 
 
 def _sym_float(v=0.0):
+    if isinstance(v, SW):
+        return SR(v.e)        # float(int64 scalar): leaves the fixed-width integer type
     if _is_sym(v):
         return v
     if isinstance(v, np.ndarray) and v.dtype == object and v.size == 1 and _is_sym(v.flat[0]):
@@ -1363,7 +1446,7 @@ class patched:
                 if hasattr(m, name):
                     self.saved.append((m, name, getattr(m, name)))
                     setattr(m, name, proxy)
-            if m.__name__.endswith(('sutils', 'boxplot')):
+            if m.__name__.endswith(('sutils', 'boxplot', 'metrics')):
                 self.saved.append((m, 'float', _MISSING))
                 m.float = _sym_float
             if m.__name__.endswith('dutils'):
